@@ -390,7 +390,12 @@ func VerifH_C11_Principal() {
 		for _, n := range available {
 			vrt.Assert(count(n, 200) == 1 && total(n) == 1, "principal: every available property is listed exactly once under 200")
 		}
-		vrt.Assert(len(entries) == len(available), "principal: nothing but the available properties is listed")
+		// further properties may exist; none may be listed twice
+		for i := range entries {
+			for j := i + 1; j < len(entries); j++ {
+				vrt.Assert(entries[i].Name != entries[j].Name, "principal: no property is listed twice")
+			}
+		}
 	case 2:
 		for _, n := range requested {
 			want := 200
@@ -443,10 +448,7 @@ func VerifH_C13_Principal() {
 	malformed := false
 	if method == "PROPFIND" {
 		xmlBody, xmlBroken, rawBody, emptyBody, malformed = symPropfindBody(hdr)
-		if emptyBody {
-			// ServePrincipal requires an XML body
-			malformed = true
-		}
+		// an empty body means allprop, for the principal helper as well
 	}
 	path := opts.CurrentUserPrincipalPath
 	r := verifXMLRequest(method, path, hdr, xmlBody, xmlBroken, rawBody, emptyBody)
